@@ -517,6 +517,7 @@ func verifAtomicEnd()   { verifAtomicMu.Unlock() }
 // verifRWMutex / verifMutex stand in for sync.RWMutex / sync.Mutex in the instrumented copies of the sources.
 type verifRWMutex struct{ m sync.RWMutex }
 
+func (l *verifRWMutex) TryLock() bool { return l.m.TryLock() }
 func (l *verifRWMutex) Lock()    { verifSchedAcquire(l.m.Lock) }
 func (l *verifRWMutex) RLock()   { verifSchedAcquire(l.m.RLock) }
 func (l *verifRWMutex) Unlock()  { l.m.Unlock() }
@@ -607,3 +608,16 @@ func verifSortSlice(x interface{}, less func(i, j int) bool) {
 func verifSliceLen(x interface{}) int { return reflect.ValueOf(x).Len() }
 
 func verifSliceSwap(x interface{}, i, j int) { reflect.Swapper(x)(i, j) }
+
+// vContainerLocksFree: nothing holds the container's registration lock any more. Symbolically the lock model is asked
+// (all locks); natively the write lock is tried, which is what the next Add or Remove would need.
+func vContainerLocksFree(c *Container) bool {
+	if verifSymbolic() {
+		return verifLocksFree()
+	}
+	if c.webServicesLock.TryLock() {
+		c.webServicesLock.Unlock()
+		return true
+	}
+	return false
+}
